@@ -20,6 +20,12 @@ META = {
  "note": "Trusted: Coq kernel+VM; the Python harness. Modelled, not verified: float arithmetic (exact integer units in the model); how a static pattern finds its timeline (inspect.stack) - the model takes `now` as an argument, validated by the correspondence only. The merge theorem excludes, as the property does, deliberate coupling: device faults (shared call counter), callbacks that perform timeline operations, named replace, max_tracks, stop_when_done (a solo timeline would stop earlier), and aborted ticks (intolerant exceptions / out-of-fuel are hypotheses `all_ticks_ok`).",
 }
 
+MERGE_INSTANCE = """
+Definition merge_instance (i : nat) (ch : Z) (mine : list nat) (cfg : config) (h : list (op * Z)) (solo_calls : list (list call)) : bool :=
+  uncoupled cfg && hist_wf i (on_channel ch) (one_of mine) 0 (expand h) && all_ticks_ok cfg tl0 (expand h)
+  && list_eqb (list_eqb call_eqb) (tick_calls cfg (tl_at i) (solo i 0 (expand h))) solo_calls.
+"""
+
 GATES = [(1, 4), (1, 2), (1, 1), (1, 1), (3, 2), (2, 1), (3, 1)]
 
 
@@ -345,6 +351,32 @@ def merge_part(run, n_desc):
         if j in flagged:
             continue
         S.report_disagreement(run, fin[j], results[j], "correspondence", "Timeline/Track")
+    # the instance of the merge theorem itself: the joint history meets the theorem's hypotheses (uncoupled, hist_wf,
+    # all_ticks_ok) and the theorem's solo run - Coq's [solo i 0 h] on [tl_at i] - makes the calls of the REAL solo run
+    terms, where = [], []
+    for j, (di, order, kind, kk, ids) in enumerate(jobs):
+        if kind != "joint" or j in flagged or order != list(range(len(descs[di]["tracks"]))):
+            continue
+        desc = descs[di]
+        for kk2 in range(len(desc["tracks"])):
+            sj = solo_of[(di, kk2)]
+            if "driver_error" in results[sj] or sj in bad or j in bad:
+                continue
+            mine = [ci for ci, c in enumerate(desc["callbacks"]) if c["owner"] == desc["tracks"][kk2]["chan"]]
+            dense = [calls for calls, _, _ in per_tick(scs[sj], results[sj])]
+            terms.append("merge_instance %s %s %s %s %s %s" % (
+                natlit(ids[kk2]), zlit(desc["tracks"][kk2]["chan"]), lst([natlit(m) for m in mine]), S.coq_config(fin[j]),
+                S.coq_history(fin[j]), lst([lst([S.coq_call(c) for c in calls]) for calls in dense])))
+            where.append((j, kk2))
+    hdr = S.HEADER + "From Isobar Require Import Sched.TimeProofs Sched.MergeProofs Props.C07.\n" + MERGE_INSTANCE
+    badi = run.coq_failing(hdr, terms, chunk=30)
+    run.cov["merge_theorem_instances_checked"] = run.cov.get("merge_theorem_instances_checked", 0) + len(terms) - len(badi)
+    for b in badi:
+        j, kk2 = where[b]
+        S.report_disagreement(run, fin[j], results[j], "merge-instance", "Timeline/Track",
+                              extra={"broken": "the instance of C07_merge for this history: its hypotheses (uncoupled, hist_wf, all_ticks_ok) or the "
+                                               "equality of the theorem's solo run with the solo run of the implementation",
+                                     "track": kk2})
 
 
 def check(run):
